@@ -151,6 +151,39 @@ def members_of(m, bits, NQ, NR):
     return [[q, r] for q in range(NQ) for r in range(NR) if z3.is_true(m.eval(bits[q][r], model_completion=True))]
 
 
+def run_checks(out, checks, pre, pc, okv, mkcex, timeout_ms):
+    """One query per obligation. An obligation given as (tag_ok, tag_err) is ONE formula whose counterexamples are attributed to the
+    Ok or the Err outcome of the call (the two outcomes belong to different properties): the model decides the side, and the
+    other side is then queried on its own so that neither is masked."""
+    for tag, post in checks:
+        out['queries'] += 1
+        r, mdl = solve([pre, pc, z3.Not(post)], timeout_ms)
+        if isinstance(tag, tuple):
+            if r == z3.sat:
+                side = z3.is_true(mdl.eval(okv, model_completion=True))
+                found = [(tag[0] if side else tag[1], mdl)]
+                out['queries'] += 1
+                r2, mdl2 = solve([pre, pc, z3.Not(post), z3.Not(okv) if side else okv], timeout_ms)
+                if r2 == z3.sat:
+                    found.append((tag[1] if side else tag[0], mdl2))
+                elif r2 == z3.unknown:
+                    out['failed'].append('UNKNOWN:' + (tag[1] if side else tag[0]))
+                for t, m_ in found:
+                    if t not in out['failed']:
+                        out['failed'].append(t)
+                        out['cexs'][t] = mkcex(m_, t)
+            elif r == z3.unknown:
+                for t in tag:
+                    if ('UNKNOWN:' + t) not in out['failed']:
+                        out['failed'].append('UNKNOWN:' + t)
+            continue
+        if r == z3.sat and tag not in out['failed']:
+            out['failed'].append(tag)
+            out['cexs'][tag] = mkcex(mdl, tag)
+        elif r == z3.unknown and ('UNKNOWN:' + tag) not in out['failed']:
+            out['failed'].append('UNKNOWN:' + tag)
+
+
 def run_insert(fns, bq, br, timeout_ms):
     t0 = time.time()
     NQ, NR = 1 << bq, 1 << br
@@ -191,16 +224,10 @@ def run_insert(fns, bq, br, timeout_ms):
         e = enc_z3(newbits, NQ, NR)
         checks = [('insert_result_kind', okv == z3.Or(present, z3.Not(full))),
                   ('insert_true_iff_new_class', z3.Implies(okv, val.payload == z3.Not(present)) if z3.is_expr(val.payload) else z3.BoolVal(True)),
-                  ('len_is_number_of_classes', st.fields[6] == z3.If(z3.And(okv, z3.Not(present)), total + 1, total)),
-                  ('post_state_is_canonical_encoding', same_state(st, e, NQ))]
-        for tag, post in checks:
-            out['queries'] += 1
-            r, mdl = solve([pre, pc, z3.Not(post)], timeout_ms)
-            if r == z3.sat and tag not in out['failed']:
-                out['failed'].append(tag)
-                out['cexs'][tag] = {'op': 'insert', 'bq': bq, 'br': br, 'members': members_of(mdl, bits, NQ, NR), 'y': [mdl.eval(yq, model_completion=True).as_long(), mdl.eval(yr, model_completion=True).as_long()]}
-            elif r == z3.unknown and ('UNKNOWN:' + tag) not in out['failed']:
-                out['failed'].append('UNKNOWN:' + tag)
+                  (('len_is_number_of_classes', 'insert_err_len_unchanged'), st.fields[6] == z3.If(z3.And(okv, z3.Not(present)), total + 1, total)),
+                  (('post_state_is_canonical_encoding', 'insert_err_state_unchanged'), same_state(st, e, NQ))]
+        mk = lambda mdl, tag: {'op': 'insert', 'bq': bq, 'br': br, 'members': members_of(mdl, bits, NQ, NR), 'y': [mdl.eval(yq, model_completion=True).as_long(), mdl.eval(yr, model_completion=True).as_long()]}
+        run_checks(out, checks, pre, pc, okv, mk, timeout_ms)
         if solve([pre, pc, z3.Not(okv)], timeout_ms)[0] == z3.sat:
             fam['err_full'] = 1
         if solve([pre, pc, okv, z3.Not(present), total == NQ - 1], timeout_ms)[0] == z3.sat:
@@ -300,18 +327,11 @@ def run_union(fns, bq, br, shape, timeout_ms):
         nb = [[z3.If(okv, ubits[q][r], bits[q][r]) for r in range(NR)] for q in range(NQ)]
         e = enc_z3(nb, NQ, NR)
         checks = [('union_ok_iff_fits', okv == fits),
-                  ('union_len', st.fields[6] == z3.If(okv, utotal, total)),
-                  ('union_state_is_encoding_of_union_or_unchanged', same_state(st, e, NQ)),
+                  (('union_ok_len', 'union_err_len_unchanged'), st.fields[6] == z3.If(okv, utotal, total)),
+                  (('union_ok_state_is_encoding_of_union', 'union_err_state_unchanged'), same_state(st, e, NQ)),
                   ('union_other_unchanged', z3.And([ot.fields[0].bits[t] == o_occ[t] for t in range(NQ)] + [ot.fields[1].bits[t] == o_cont[t] for t in range(NQ)] +
                                                    [ot.fields[2].bits[t] == o_sh[t] for t in range(NQ)] + [ot.fields[3].vals[t] == o_rem[t] for t in range(NQ)] + [ot.fields[6] == ny]))]
-        for tag, post in checks:
-            out['queries'] += 1
-            r, mdl = solve([pre, pc, z3.Not(post)], timeout_ms)
-            if r == z3.sat and tag not in out['failed']:
-                out['failed'].append(tag)
-                out['cexs'][tag] = cex(mdl, tag)
-            elif r == z3.unknown and ('UNKNOWN:' + tag) not in out['failed']:
-                out['failed'].append('UNKNOWN:' + tag)
+        run_checks(out, checks, pre, pc, okv, cex, timeout_ms)
     out['witnesses'] = fam
     out['wall_s'] = round(time.time() - t0, 1)
     return out
